@@ -273,6 +273,20 @@ func (c *Cache) Get(key interface{}) (interface{}, bool) {
 	return v, ok
 }
 
+// Clear drops every entry (a cache restart / full eviction: a legitimate environment event).
+func (c *Cache) Clear() {
+	if c == nil {
+		return
+	}
+	c.mu.Lock()
+	defer c.mu.Unlock()
+	c.M = map[string]interface{}{}
+	c.Order = nil
+	if c.Real != nil {
+		c.Real = mast.NewNodeCache(1000)
+	}
+}
+
 // Snapshot returns the entries and (for evicting caches) the LRU order.
 func (c *Cache) Snapshot() (map[string]interface{}, []string) {
 	if c == nil {
